@@ -53,7 +53,7 @@ type fwdUnit struct {
 	runDone chan struct{}
 }
 
-func newFwdUnit(cfg compCfg, url string, slots int, maxElapsed time.Duration) (*fwdUnit, error) {
+func newFwdUnit(cfg compCfg, url string, slots int, maxElapsed time.Duration, dynHeaders ...string) (*fwdUnit, error) {
 	u := &fwdUnit{cfg: cfg, runDone: make(chan struct{})}
 	logger := quietLogger()
 	pool := transport.NewTransportPool(logger, viper.New())
@@ -64,7 +64,7 @@ func newFwdUnit(cfg compCfg, url string, slots int, maxElapsed time.Duration) (*
 	u.rec = &recorder{base: cl.Client.Transport}
 	cl.Client.Transport = u.rec
 	u.fc = statsd.VerifNewFlushCoordinator()
-	u.fwd, err = statsd.NewHttpForwarderHandlerV2(logger, "default", url, slots, 10, 1, cfg.Compress, cfg.Type, cfg.Level, maxElapsed, time.Hour, nil, nil, pool, u.fc)
+	u.fwd, err = statsd.NewHttpForwarderHandlerV2(logger, "default", url, slots, 10, 1, cfg.Compress, cfg.Type, cfg.Level, maxElapsed, time.Hour, nil, dynHeaders, pool, u.fc)
 	if err != nil {
 		return nil, err
 	}
